@@ -3,7 +3,7 @@
     dump of the real code, see Proofs/XPathExamples.v; the checks replay them on the implementation). *)
 From Coq Require Import List NArith Bool Lia Sorting.Sorted.
 From XmlRs Require Import Base.CPred Base.NList Base.Float64.
-From XmlRs Require Import Model.XPathAst Model.XDoc Model.XDocCheck Model.XPathScalar Model.XPathEval.
+From XmlRs Require Import Model.XPathAst Model.XDoc Model.XDocCheck Model.XPathEval.
 From XmlRs Require Import Proofs.XPathNav Proofs.XPathSort Proofs.XPathAstPred Proofs.XPathCanon
   Proofs.XPathDocCheck Proofs.XPathExamples Proofs.XPathUnion.
 Import ListNotations.
@@ -15,6 +15,14 @@ Proof. apply doc_inv_b_sound. vm_compute. reflexivity. Qed.
 
 Lemma ns_doc_inv : DocInv ns_doc.
 Proof. apply doc_inv_b_sound. vm_compute. reflexivity. Qed.
+
+(** a document with processing instructions (they have proper order keys since the dom fix D18) *)
+Lemma pi_doc_inv : DocInv pi_doc.
+Proof. apply doc_inv_b_sound. vm_compute. reflexivity. Qed.
+
+(** a document with a DTD-default attribute is a well-formed table, but its keys are not in order *)
+Lemma dtd_doc_wf : DocWf dtd_doc /\ doc_inv_b dtd_doc = false.
+Proof. split; [apply doc_wf_b_sound; vm_compute; reflexivity|vm_compute; reflexivity]. Qed.
 
 Lemma ex_good_root : good ex_doc doc_root.
 Proof. split; [unfold valid; cbn; lia|vm_compute; discriminate]. Qed.
@@ -36,8 +44,26 @@ Proof. vm_compute. auto. Qed.
 
 (** //b[nosuch()] fails and leaves the context as it was *)
 Lemma ex_error_restores :
-  query ex_doc ex_doc_e4 ctx_default = (Err (ENotFoundFunction [110; 111; 115; 117; 99; 104]), ctx_default).
+  query ex_doc ex_doc_e4 ctx_default = (Err (XErrNotFoundFunction [110; 111; 115; 117; 99; 104]), ctx_default).
 Proof. vm_compute. reflexivity. Qed.
+
+(** /r/node() on <r><a/><?p x?><?q y?></r> lists a and the two PIs in document order; the sibling
+    axis from a reaches both PIs (it did not terminate before the dom fixes D18/D21) *)
+Lemma pi_examples :
+  fst (query pi_doc pi_doc_e0 ctx_default) = Ok (XNodes [3; 5; 6]) /\
+  fst (query pi_doc pi_doc_e4 ctx_default) = Ok (XNodes [5; 6]) /\
+  fst (query pi_doc pi_doc_e5 ctx_default) = Ok (XNodes [6]).
+Proof. vm_compute. auto. Qed.
+
+(** unsupported constructs are errors or empty node-sets: $v, id("x") with and without a DTD,
+    the parent of an attribute *)
+Lemma unsupported_examples :
+  fst (query pi_doc pi_doc_e2 ctx_default) = Err (XErrNotFoundVariable [118]) /\
+  fst (query pi_doc pi_doc_e6 ctx_default) = Ok (XNodes []) /\
+  fst (query dtd_doc dtd_doc_e2 ctx_default) = Err (XErrNotFoundFunction [105; 100]) /\
+  fst (query ex_doc pi_doc_e7 ctx_default) = Ok (XNodes []) /\
+  expr_total pi_doc_e2 = true /\ expr_total pi_doc_e6 = true /\ expr_total pi_doc_e7 = true.
+Proof. vm_compute. repeat split; reflexivity. Qed.
 
 (** ** the namespace axis (D19): namespace nodes have key 0 or the key of an inherited declaration *)
 Lemma ns_axis_not_canonical :
@@ -53,22 +79,12 @@ Lemma ns_axis_union_not_commutative :
   fst (query ns_doc ns_doc_e2 ctx_default) = Ok (XNodes [5; 2]).
 Proof. vm_compute. auto. Qed.
 
-(** ** processing instructions (D18, D21): key 0, equal keys among siblings *)
-Lemma pi_doc_not_wf : doc_wf_b pi_doc = false.
-Proof. vm_compute. reflexivity. Qed.
-
-(** /r/node() on <r><a/><?p x?><?q y?></r>: the two PIs collapse and sort before a *)
-Lemma pi_not_canonical :
-  fst (query pi_doc pi_doc_e0 ctx_default) = Ok (XNodes [5; 3]) /\ ~ StronglySorted (doc_lt pi_doc) [5; 3].
+(** ** DTD-default attributes (D19): /r/@* on <!DOCTYPE r [<!ATTLIST r d CDATA "dv">]><r a="1"><b/></r>
+    lists the default attribute d (key 0, row 6) before the specified attribute a (row 4) *)
+Lemma default_attribute_not_canonical :
+  fst (query dtd_doc dtd_doc_e0 ctx_default) = Ok (XNodes [6; 4]) /\
+  ~ StronglySorted (doc_lt dtd_doc) [6; 4] /\ no_ns_axis dtd_doc_e0 = true.
 Proof.
-  split; [vm_compute; reflexivity|].
+  split; [vm_compute; reflexivity|]. split; [|vm_compute; reflexivity].
   intros H. inversion H as [|a l Hl Ha]; subst. inversion Ha as [|b l' Hb _]; subst. unfold doc_lt in Hb. lia.
 Qed.
-
-(** //a/following-sibling::node() does not terminate: next_sibling cycles between the PIs *)
-Lemma pi_sibling_loop_diverges : fst (query pi_doc pi_doc_hang ctx_default) = OutOfFuel.
-Proof. vm_compute. reflexivity. Qed.
-
-(** ** substring("ab", 0) panics (D30, scalar library) whatever the document *)
-Lemma substring_panics : fst (query ex_doc pi_doc_e3 ctx_default) = Panic /\ expr_total pi_doc_e3 = false.
-Proof. vm_compute. auto. Qed.
